@@ -50,6 +50,7 @@ type vfScenario struct {
 	Branches []vfBranch             `json:"branches"`
 	Max      int                    `json:"max"`
 	NilOut   []string               `json:"nilout"` // nodes whose output type is `any` and whose body returns nil: their state post-handler supplies the value
+	StoreFail bool                  `json:"storefail"` // the checkpoint store refuses every write
 	Pipe     bool                   `json:"pipe"`   // streaming nodes (snodes) hand out pipe-backed streams of two chunks instead of one array-backed chunk
 	DOpt     bool                   `json:"dopt"`   // every call carries a node-designated callbacks option in front of the other options
 	AnyOut   bool                   `json:"anyout"` // the top-level graph is a Graph[map[string]any, any]: input and output type differ (checkpoint stream converters)
@@ -239,6 +240,7 @@ type vfStore struct {
 	m     map[string][]byte
 	sets  []string
 	known map[string]bool // checkpoint ids of the logical runs sharing this store
+	fail  bool            // every write is refused (the run must then fail instead of reporting an interrupt nobody can resume)
 }
 
 func (s *vfStore) Get(_ context.Context, id string) ([]byte, bool, error) {
@@ -254,6 +256,9 @@ func (s *vfStore) Get(_ context.Context, id string) ([]byte, bool, error) {
 func (s *vfStore) Set(_ context.Context, id string, cp []byte) error {
 	s.mu.Lock()
 	defer s.mu.Unlock()
+	if s.fail {
+		return errors.New("verif store: write refused")
+	}
 	s.m[id] = append([]byte{}, cp...)
 	s.sets = append(s.sets, id)
 	return nil
@@ -1088,6 +1093,8 @@ func vfClassify(err error) map[string]any {
 	case strings.Contains(msg, "context has been canceled") || strings.Contains(msg, "context canceled"):
 		out["class"] = "canceled"
 		out["is"] = errors.Is(err, context.Canceled)
+	case strings.Contains(msg, "verif store: write refused"):
+		out["class"] = "store"
 	case strings.Contains(msg, "duplicated key"):
 		out["class"] = "dup"
 	case strings.Contains(msg, "no tasks to execute"):
@@ -1243,7 +1250,7 @@ func (r *vfRun) runScenario() {
 	rc := r.def
 	line := vfCaseLine(r.sc)
 	rc.rec.log(line)
-	store := &vfStore{m: map[string][]byte{}}
+	store := &vfStore{m: map[string][]byte{}, fail: r.sc.StoreFail}
 	run, err := r.compile(store)
 	if err != nil {
 		rc.rec.log(map[string]any{"ev": "builderror", "msg": err.Error()})
@@ -1385,7 +1392,7 @@ func vfCaseLine(sc *vfScenario) map[string]any {
 	}
 	return map[string]any{"ev": "case", "id": sc.ID, "mode": sc.Mode, "nodes": vfL(sc.Nodes), "edges": edges, "branches": brs,
 		"max": max, "before": vfL(sc.Before), "after": vfL(sc.After), "rerun": vfL(sc.Rerun), "state": sc.State,
-		"fail": fails, "noid": sc.NoID, "subs": subs, "calls": vfL(sc.Calls), "post": sc.Post, "hmod": sc.HMod, "echo": vfL(sc.Echo), "x0": "x", "bare": vfL(vfBareList(sc)), "lower": sc.Lower}
+		"fail": fails, "noid": sc.NoID, "subs": subs, "calls": vfL(sc.Calls), "post": sc.Post, "hmod": sc.HMod, "echo": vfL(sc.Echo), "x0": "x", "bare": vfL(vfBareList(sc)), "lower": sc.Lower, "storefail": sc.StoreFail}
 }
 
 var ioEOF = func() error {
